@@ -148,23 +148,37 @@ def rule_label_regex(rep, rule="C-regex-label"):
 # ------------------------------------------------------------------------------------ C-num
 
 
+def reader_regexes():
+    """{(pattern, flags)} of every regular expression the reader evaluated while reading the long form back."""
+    out = {}
+    for shape in DOC_SHAPES[:2]:
+        I, enc, d, back, err = round_trip(LONG_W, shape)
+        if I is None:
+            continue
+        for frame, func, pat, flags, text in I.__dict__.get("regex_log", []):
+            out.setdefault((pat, flags), (frame, func))
+    return out
+
+
 def rule_numeric_regex(rep, tier, rule="C-num-regex"):
-    """Every numeric regex of the long reader accepts every string the writer's number formatter can produce."""
+    """Every numeric regex the long reader evaluates captures whole every exemplar of the writer's numeric language,
+    placed in the writer's own line (both taken from the interpretation: the regexes from the reader's run on the
+    written document, the line templates from the symbolic document)."""
     idx = common.ctx()
     rd, wr = idx.get(LONG_R), idx.get(LONG_W)
-    # the writer's line around each numeral, read off the symbolic document of the long form
     try:
         templates = writer_line_templates()
+        regs = reader_regexes()
     except (Undecided, PyRaise) as e:
         rep.undecided(rule, wr.short, "line templates", "the long emitter could not be interpreted: %s" % e)
         return
-    n = 0
-    for call, pat, flags in tf.regex_literals(rd, idx):
+    seen_keys = set()
+    for (pat, flags), (frame, func) in sorted(regs.items()):
         m = re.match(r"(xmin|xmax|number)", pat)
-        if not m:
+        if not m or func not in ("search", "match", "findall"):
             continue
-        n += 1
         key = m.group(1)
+        seen_keys.add(key)
         tpls = sorted(templates.get(key, ()))
         if not tpls:
             rep.undecided(rule, rd.short, pat, "the long emitter writes no numeral on a line starting with '%s'" % key)
@@ -181,9 +195,12 @@ def rule_numeric_regex(rep, tier, rule="C-num-regex"):
                 mm = rx.search(line)
                 if (not mm or mm.groups()[0] != ex) and ex not in bad:
                     bad.append(ex)
-        rep.check(not bad, rule, rd.short, pat, ok="matches the whole number for %d exemplar strings of the writer's numeric language (integers, decimals, exponent notation)" % len(exemplars(tier)),
-                  bad="the writer emits %s (repr of a float) but this regex does not capture it whole: a written file cannot be read back" % ", ".join(bad[:4]), loc=rd.where(call))
-    rep.floor(rule, 5, "tier xmin/xmax, interval xmin/xmax, point number")
+        rep.check(not bad, rule, "textgrid_io.%s" % frame, pat, ok="matches the whole number for %d exemplar strings of the writer's numeric language (integers, decimals, exponent notation)" % len(exemplars(tier)),
+                  bad="the writer emits %s (repr of a float) but this regex does not capture it whole: a written file cannot be read back" % ", ".join(bad[:4]))
+    missing = {"xmin", "xmax", "number"} - seen_keys
+    if missing and regs:
+        rep.undecided(rule, rd.short, "numeric fields", "no regular expression for %s was evaluated while reading the long form back" % sorted(missing))
+    rep.floor(rule, 3, "xmin, xmax, number")
 
 
 def rule_numeric_conversion(rep, tier, rule="C-num-conv"):
@@ -206,15 +223,7 @@ def rule_numeric_conversion(rep, tier, rule="C-num-conv"):
             return
     rep.check(not bad, rule, fn.short, norm(fn.node.body[-1])[:100], ok="every exemplar of the writer's numeric language converts to its value",
               bad="tier spans written in exponent notation cannot be read back: " + "; ".join(bad[:4]), loc=fn.loc)
-    # call sites: tier spans in both parsers go through it (or float)
-    n = 0
-    for spec in (LONG_R, SHORT_R):
-        f = idx.get(spec)
-        for c in ast.walk(f.node):
-            if tf.is_call_to(idx, f, c, "strToIntOrFloat"):
-                n += 1
-                rep.proved(rule, f.short, norm(c), "tier span converted by strToIntOrFloat", nontrivial=False)
-    rep.floor(rule, 5, "strToIntOrFloat + 4 call sites")
+    rep.floor(rule, 1)
 
 
 # ------------------------------------------------------------------------------------ C-exact
@@ -591,6 +600,273 @@ def writer_line_templates():
     return out
 
 
+# ------------------------------------------------------------------------------------ RT-doc (reader on the writer's document)
+
+
+class DocEncoding:
+    """Concrete stand-ins for the atoms of a symbolic document.
+
+    A numeral atom becomes a unique numeral (plain, decimal, negative and positive exponent shapes in turn); a label
+    atom becomes an *adversarial skeleton* built from private-use characters (opaque, inert content) around the
+    shapes that are hard for a reader: a doubled quote followed by a line break, a label that is nothing but a
+    quote, a quote before blanks and a line break, a label ending in a quote.  Tier names get the same without line
+    breaks.  The reader under analysis is interpreted on the resulting text; what it returns is mapped back."""
+
+    def __init__(self, spec_style=False):
+        self.spec_style = spec_style  # labels as a foreign, specification-conformant writer may produce them
+        self.tokens = {}      # numeral text -> Lin
+        self.by_lin = {}
+        self.raw = {}         # label variable name -> raw text
+        self.n_lab = 0
+
+    def numeral(self, lin):
+        k = lin.key()
+        if k not in self.by_lin:
+            i = len(self.by_lin) + 1
+            shape = ("9%05d", "9%05d.5", "9.%05de-05", "9.%05de+20")[i % 4]
+            t = shape % i
+            self.by_lin[k] = t
+            self.tokens[t] = lin
+        return self.by_lin[k]
+
+    def label(self, var):
+        name = var.parts[0]
+        if name not in self.raw:
+            i = self.n_lab
+            self.n_lab += 1
+            x, y = chr(0xE000 + 2 * i), chr(0xE001 + 2 * i)
+            if name.startswith("name"):
+                self.raw[name] = (x + '""' + y, x + '"', x)[i % 3]
+            elif self.spec_style:
+                # surrounding blanks, blank-only and empty labels: legal in a file, never produced by praatio's own writer
+                self.raw[name] = (" " + x + " ", " ", x, "", "\n", x + '""\n ' + y + " ")[i % 6]
+            else:
+                self.raw[name] = (x + '""\n' + y, '"', x, x + '" \n' + y + '"', '""')[i % 5]
+        return self.raw[name]
+
+    def encode(self, pieces):
+        from ..absint import Str
+
+        out = []
+        for p in pieces:
+            if isinstance(p, str):
+                out.append(p)
+            elif isinstance(p, Str) and p.kind == "num":
+                out.append(self.numeral(p.parts[0]))
+            elif isinstance(p, Str) and p.kind == "esc":
+                out.append(self.label(p.parts[0]).replace('"', '""'))
+            else:
+                raise Undecided("the written document contains %r (W-doc reports it)" % (p,))
+        return "".join(out)
+
+
+def _reader_overrides(enc, log):
+    def tofloat(I, a, k):
+        v = a[0]
+        if isinstance(v, Lin):
+            return v
+        if isinstance(v, str):
+            t = v.strip()
+            if t in enc.tokens:
+                return enc.tokens[t]
+            try:
+                return Lin.num(Fraction(float(t)))
+            except Exception:
+                raise PyRaise("ValueError")
+        raise Undecided("float(%r)" % (v,))
+
+    def toint(I, a, k):
+        v = a[0]
+        if isinstance(v, Lin):
+            if v.is_const():
+                return Lin.num(int(v.const))
+            raise Undecided("int() of a symbolic number")
+        if isinstance(v, str):
+            t = v.strip()
+            try:
+                int(t)  # raises for '9.5', '9e-05' exactly as the real int() does
+            except ValueError:
+                raise PyRaise("ValueError")
+            if t in enc.tokens:
+                return enc.tokens[t]
+            return Lin.num(int(t))
+        raise Undecided("int(%r)" % (v,))
+
+    def loads(I, a, k):
+        log.append("json.loads")
+        raise PyRaise("JSONDecodeError")
+    return {"float": tofloat, "int": toint, "json.loads": loads}
+
+
+def read_back(idx, text, enc):
+    """Interpret parseTextgridStr on `text`; -> (Interp, result)"""
+    st = State([("0", Lin.num(0))], [0])
+    I = Interp(idx, st, overrides=default_overrides())
+    log = []
+    I.builtin_overrides = _reader_overrides(enc, log)
+    I.MAX_STEPS = 4000000
+    fn = idx.get("utilities.textgrid_io:parseTextgridStr")
+    return I, I.call_function(fn, [text, True], {})
+
+
+def compare_read(I, enc, back, d):
+    """None if the dictionary the reader returned equals the generic dictionary d (numbers by atom, texts by skeleton)."""
+    from ..absint import Str
+
+    def num(v):
+        if isinstance(v, str):
+            return enc.tokens.get(v.strip())
+        return v if isinstance(v, Lin) else None
+
+    def same_num(g, w):
+        g = num(g)
+        return g is not None and g.same(w)
+
+    def text_of(w):
+        if isinstance(w, Str):
+            return enc.raw.get(w.parts[0])
+        return w
+    if not isinstance(back, DictVal):
+        return "the reader returned %r" % (back,)
+    for k in ("xmin", "xmax"):
+        if not same_num(back.d.get(k), d.d[k]):
+            return "textgrid %s comes back as %r, written %r" % (k, back.d.get(k), d.d[k])
+    bt, dt = I.iterate(back.d["tiers"]), I.iterate(d.d["tiers"])
+    if len(bt) != len(dt):
+        return "%d tiers come back, %d written" % (len(bt), len(dt))
+    for n, (b, t) in enumerate(zip(bt, dt), 1):
+        b, t = b.d, t.d
+        if b["class"] != t["class"]:
+            return "tier %d comes back as %s, written %s" % (n, b["class"], t["class"])
+        if b["name"] != text_of(t["name"]):
+            return "tier %d name comes back as %r, written %r" % (n, b["name"], text_of(t["name"]))
+        for k in ("xmin", "xmax"):
+            if not same_num(b[k], t[k]):
+                return "tier %d %s comes back as %r, written %r" % (n, k, b[k], t[k])
+        be, te = I.iterate(b["entries"]), I.iterate(t["entries"])
+        if len(be) != len(te):
+            return "tier %d: %d entries come back, %d written" % (n, len(be), len(te))
+        for m, (x, y) in enumerate(zip(be, te), 1):
+            xs, ys = I.iterate(x), I.iterate(y)
+            if len(xs) != len(ys):
+                return "tier %d entry %d has %d fields, written %d" % (n, m, len(xs), len(ys))
+            for g, w in zip(xs[:-1], ys[:-1]):
+                if not same_num(g, w):
+                    return "tier %d entry %d: time comes back as %r, written %r" % (n, m, g, w)
+            if xs[-1] != text_of(ys[-1]):
+                return "tier %d entry %d: label comes back as %r, written %r (the label is written with every quote doubled)" % (n, m, xs[-1], text_of(ys[-1]))
+    return None
+
+
+_RT_CACHE = {}
+
+
+def round_trip(spec, shape, crlf=False):
+    """(Interp, enc, dict, result | exception) of reading back what `spec` writes for the generic textgrid of `shape`."""
+    key = (spec, tuple(shape), crlf)
+    if key not in _RT_CACHE:
+        idx = common.ctx()
+        I0, d, pieces = symbolic_document(spec, shape)
+        enc = DocEncoding()
+        text = enc.encode(pieces)
+        if crlf:
+            text = text.replace("\n", "\r\n")
+            for k in list(enc.raw):
+                enc.raw[k] = enc.raw[k]  # labels keep their own line breaks as written
+        try:
+            I, back = read_back(idx, text, enc)
+            _RT_CACHE[key] = (I, enc, d, back, None)
+        except (PyRaise, Undecided) as e:
+            _RT_CACHE[key] = (None, enc, d, None, e)
+    return _RT_CACHE[key]
+
+
+def rule_round_trip(rep, tier, rule="RT-doc"):
+    """parseTextgridStr, interpreted on the text the two emitters write for generic textgrids (numerals and labels as
+    opaque atoms with adversarial skeletons), returns the dictionary that was written."""
+    idx = common.ctx()
+    rd = idx.get("utilities.textgrid_io:parseTextgridStr")
+    for q in (LONG_R, SHORT_R, "utilities.textgrid_io:_fetchRow", "utilities.textgrid_io:_fetchTextRow", "utilities.utils:strToIntOrFloat"):
+        if idx.try_get(q):
+            rep.functions.add(idx.get(q).qual)
+    shapes = [s_ for s_ in DOC_SHAPES if s_]  # a textgrid without tiers is outside the quantifier (1..n tiers)
+    shapes += [[("interval", 5)], [("point", 5)]]
+    if tier == "thorough":
+        shapes += [[("interval", 3), ("interval", 0), ("point", 0), ("point", 4)], [("point", 0)], [("interval", 1)] * 4]
+    cases = [(spec, fmt, shape, False) for spec, fmt in ((LONG_W, "long"), (SHORT_W, "short")) for shape in shapes]
+    cases += [(spec, fmt, DOC_SHAPES[0], True) for spec, fmt in ((LONG_W, "long"), (SHORT_W, "short"))]
+    for spec, fmt, shape, crlf in cases:
+        if True:
+            what = "%s form%s of a generic textgrid [%s]" % (fmt, " with CRLF line ends" if crlf else "", ", ".join("%s x%d" % sk for sk in shape))
+            try:
+                I, enc, d, back, err = round_trip(spec, shape, crlf)
+            except (PyRaise, Undecided) as e:
+                rep.undecided(rule, rd.short, what, "the emitter could not be interpreted: %s" % e)
+                continue
+            if isinstance(err, Undecided):
+                rep.undecided(rule, rd.short, what, str(err))
+                continue
+            if isinstance(err, PyRaise):
+                rep.refuted(rule, rd.short, what, "reading back what was written raises %s" % err.name, loc=rd.loc)
+                continue
+            diff = compare_read(I, enc, back, d)
+            rep.check(diff is None, rule, rd.short, what, ok="every name, class, span, time and label comes back (labels with doubled quotes, line breaks, quote-only labels)",
+                      bad=diff or "", loc=rd.loc)
+    rep.floor(rule, 10)
+
+
+def rule_sibling_readers(rep, rule="H-siblings"):
+    """The long and the short encoding of the same data -- written with labels as a foreign writer may produce them
+    (surrounding blanks, blank-only, empty, a lone line break) -- open to equal dictionaries, with and without
+    blank removal."""
+    idx = common.ctx()
+    rd = idx.get("utilities.textgrid_io:parseTextgridStr")
+    st = State([("0", Lin.num(0))], [0])
+    for shape in ([("interval", 6), ("point", 6)], [("point", 2), ("interval", 3)]):
+        for include in (True, False):
+            what = "generic textgrid [%s], includeEmptyIntervals=%s" % (", ".join("%s x%d" % sk for sk in shape), include)
+            enc = DocEncoding(spec_style=True)
+            outs = {}
+            try:
+                for spec, fmt in ((LONG_W, "long"), (SHORT_W, "short")):
+                    _, d, pieces = symbolic_document(spec, shape)
+                    text = enc.encode(pieces)
+                    I = Interp(idx, st, overrides=default_overrides())
+                    I.builtin_overrides = _reader_overrides(enc, [])
+                    I.MAX_STEPS = 4000000
+                    outs[fmt] = (I, I.call_function(rd, [text, include], {}))
+            except PyRaise as e:
+                rep.refuted(rule, rd.short, what, "the %s form of a specification-conformant file cannot be read: %s" % (fmt, e.name), loc=rd.loc)
+                continue
+            except Undecided as e:
+                rep.undecided(rule, rd.short, what, str(e))
+                continue
+
+            def flat(I, v):
+                if isinstance(v, DictVal):
+                    return {str(k): flat(I, x) for k, x in v.d.items()}
+                if isinstance(v, (Lst, Tup)):
+                    return [flat(I, x) for x in v.items]
+                if isinstance(v, str):
+                    t = v.strip()
+                    return ("num", enc.tokens[t].key()) if t in enc.tokens else ("str", v)
+                if isinstance(v, Lin):
+                    return ("num", v.key())
+                return repr(v)
+            a, b = flat(*outs["long"]), flat(*outs["short"])
+            diff = None
+            if a != b:
+                ta, tb = a.get("tiers", []), b.get("tiers", [])
+                diff = "textgrid spans differ" if (a.get("xmin"), a.get("xmax")) != (b.get("xmin"), b.get("xmax")) else None
+                for n, (x, y) in enumerate(zip(ta, tb), 1):
+                    if x != y and diff is None:
+                        ex, ey = x.get("entries", []), y.get("entries", [])
+                        diff = "tier %d: long form gives %d entries %r, short form %d entries %r" % (n, len(ex), [e[-1] for e in ex], len(ey), [e[-1] for e in ey])
+                diff = diff or "the dictionaries differ"
+            rep.check(diff is None, rule, rd.short, what, ok="long and short encodings of the same data open to equal dictionaries", bad=diff or "", loc=rd.loc)
+    rep.floor(rule, 4)
+
+
 # ------------------------------------------------------------------------------------ C-blocks
 
 
@@ -692,53 +968,87 @@ def _escape(s):
     return s.replace('"', '""')
 
 
-def rule_scans(rep, rule="C-scan"):
-    """Delimiter scans over raw text must not be able to match inside an escaped payload (constructive test)."""
+def reader_closure():
+    """Functions of textgrid_io reachable from parseTextgridStr through direct calls and function-valued names."""
     idx = common.ctx()
-    fns = [idx.get("utilities.textgrid_io:parseTextgridStr"), idx.get(LONG_R), idx.get(SHORT_R)]
-    n = 0
-    for fn in fns:
+    root = idx.get("utilities.textgrid_io:parseTextgridStr")
+    mod = root.module
+    seen, todo = {}, [root]
+    while todo:
+        f = todo.pop()
+        if f.qual in seen:
+            continue
+        seen[f.qual] = f
+        for n in ast.walk(f.node):
+            if isinstance(n, ast.Name) and n.id in mod.functions and n.id != f.name:
+                todo.append(mod.functions[n.id])
+    return [seen[k] for k in sorted(seen)]
+
+
+def _const_strs(idx, fn, expr, depth=0):
+    """Constant-fold a string expression: literals, +, module-level and local single-assignment names."""
+    if depth > 6:
+        return []
+    if isinstance(expr, ast.Constant) and isinstance(expr.value, str):
+        return [expr.value]
+    if isinstance(expr, ast.BinOp) and isinstance(expr.op, ast.Add):
+        return [a + b for a in _const_strs(idx, fn, expr.left, depth + 1) for b in _const_strs(idx, fn, expr.right, depth + 1)]
+    if isinstance(expr, ast.Name):
+        vals = [a.value for a in ast.walk(fn.node) if isinstance(a, ast.Assign) and len(a.targets) == 1 and norm(a.targets[0]) == expr.id]
+        if not vals:
+            node = fn.module.const_nodes.get(expr.id) if hasattr(fn.module, "const_nodes") else None
+            vals = [node] if node is not None else []
+        out = []
+        for v in vals:
+            out += _const_strs(idx, fn, v, depth + 1)
+        return out
+    return []
+
+
+def rule_scans(rep, rule="C-scan"):
+    """Delimiter scans over raw text must not be able to match inside an escaped payload (constructive test).
+    Findings are keyed by the scanned pattern, wherever in the reader's call closure the scan sits."""
+    idx = common.ctx()
+    seen = set()
+
+    def verdict(fn, node, pat, is_regex, kind):
+        if (pat, is_regex, kind) in seen:
+            return
+        seen.add((pat, is_regex, kind))
+        _scan_verdict(rep, rule, fn, node, pat, is_regex, kind)
+    for fn in reader_closure():
         rep.functions.add(fn.qual)
         for node in ast.walk(fn.node):
-            pat, kind, is_regex, scanned = None, None, False, None
             if isinstance(node, ast.Call):
                 f = norm(node.func)
-                if f == "re.split" and isinstance(node.args[0], ast.Constant):
-                    pat, is_regex = node.args[0].value, True
-                    kind = "first" if any(k.arg == "maxsplit" for k in node.keywords) else "global"
-                    scanned = norm(node.args[1])
-                elif f == "re.split" and isinstance(node.args[0], ast.Name):
-                    # pattern held in a local: every constant assigned to it is a pattern of this scan
-                    pats = [a.value.value for a in ast.walk(fn.node) if isinstance(a, ast.Assign) and len(a.targets) == 1 and norm(a.targets[0]) == node.args[0].id and isinstance(a.value, ast.Constant) and isinstance(a.value.value, str)]
-                    for p2 in pats:
-                        n += 1
-                        _scan_verdict(rep, rule, fn, node, p2, True, "global", norm(node.args[1]))
-                    continue
-                elif f.endswith("findAll") and len(node.args) == 2 and isinstance(node.args[1], ast.Constant):
-                    pat, kind, scanned = node.args[1].value, "global", norm(node.args[0])
-                elif f == "re.search" and isinstance(node.args[0], ast.Constant) and fn.name == "_parseNormalTextgrid":
-                    # only reachable from a handler that cannot be entered: reported as dead code
-                    continue
-            elif isinstance(node, ast.Compare) and len(node.ops) == 1 and isinstance(node.ops[0], (ast.In, ast.NotIn)) and isinstance(node.left, ast.Constant) and isinstance(node.left.value, str) and isinstance(node.comparators[0], ast.Name):
-                pat, kind, scanned = node.left.value, "global", norm(node.comparators[0])
-            if pat is None:
-                continue
-            n += 1
-            _scan_verdict(rep, rule, fn, node, pat, is_regex, kind, scanned)
-    rep.floor(rule, 9, "9 delimiter scan patterns in the three reader functions")
+                if f == "re.split" and node.args:
+                    kind = "first" if any(k.arg == "maxsplit" for k in node.keywords) or len(node.args) > 2 else "global"
+                    for p2 in _const_strs(idx, fn, node.args[0]):
+                        verdict(fn, node, p2, True, kind)
+                elif f.endswith("findAll") and len(node.args) == 2:
+                    for p2 in _const_strs(idx, fn, node.args[1]):
+                        verdict(fn, node, p2, False, "global")
+                elif f in ("re.finditer", "re.findall") and node.args:
+                    for p2 in _const_strs(idx, fn, node.args[0]):
+                        verdict(fn, node, p2, True, "global")
+            elif isinstance(node, ast.Compare) and len(node.ops) == 1 and isinstance(node.ops[0], (ast.In, ast.NotIn)) and isinstance(node.comparators[0], ast.Name) \
+                    and not (isinstance(node.left, ast.Constant) and len(str(node.left.value)) == 1):
+                for p2 in _const_strs(idx, fn, node.left):
+                    verdict(fn, node, p2, False, "global")
+    rep.floor(rule, 9, "9 delimiter scan patterns in the reader's call closure")
 
 
-def _scan_verdict(rep, rule, fn, node, pat, is_regex, kind, scanned):
+def _scan_verdict(rep, rule, fn, node, pat, is_regex, kind):
     rx = re.compile(pat, re.MULTILINE) if is_regex else re.compile(re.escape(pat))
     sample = _sample(pat) if is_regex else pat
     hits = [p for p in (sample, '"' + sample, sample + '"', '"' + sample + '"', "x " + sample + " y") if rx.search(_escape(p))]
-    where = "%s: %s in %s" % ("re.split" if is_regex else "scan", pat, scanned)
+    where = "%s: %s" % ("re.split" if is_regex else "scan", pat)
     if kind == "first":
-        rep.proved(rule, fn.short, where, "first-match scan: the header line precedes every payload", loc=fn.where(node))
+        rep.proved(rule, "text readers", where, "first-match scan: the header line precedes every payload", loc=fn.where(node))
     elif not hits:
-        rep.proved(rule, fn.short, where, "the pattern cannot occur inside an escaped payload (every '\"' of a payload is doubled)", loc=fn.where(node))
+        rep.proved(rule, "text readers", where, "the pattern cannot occur inside an escaped payload (every '\"' of a payload is doubled)", loc=fn.where(node))
     else:
-        rep.refuted(rule, fn.short, where, "global scan over text that includes payloads; a label such as %r contains the delimiter and derails the parser" % hits[0], loc=fn.where(node))
+        rep.refuted(rule, "text readers", where, "global scan over text that includes payloads (in %s); a label such as %r contains the delimiter and derails the parser" % (fn.short, hits[0]), loc=fn.where(node))
 
 
 def _sample(pat):
@@ -938,25 +1248,6 @@ def _flow_dispatch(rep, rule):
 def rule_reader_flow(rep, rule="C-flow"):
     """CRLF normalisation dominates scanning; format sniffing order; blank removal; encoding fallback."""
     idx = common.ctx()
-    for spec in (LONG_R, SHORT_R):
-        fn = idx.get(spec)
-        par = fn.params[0]
-        # the first statement that mentions the text must be the CRLF normalisation of the text itself
-        first = None
-        for st_ in fn.node.body:
-            if any(isinstance(n, ast.Name) and n.id == par for n in ast.walk(st_)):
-                first = st_
-                break
-        ok = False
-        if isinstance(first, ast.Assign) and len(first.targets) == 1 and isinstance(first.targets[0], ast.Name):
-            v = first.value
-            ok = (isinstance(v, ast.Call) and isinstance(v.func, ast.Attribute) and v.func.attr == "replace" and norm(v.func.value) == par
-                  and len(v.args) == 2 and all(isinstance(a, ast.Constant) for a in v.args) and v.args[0].value == "\r\n" and v.args[1].value == "\n")
-            if ok and first.targets[0].id != par:
-                # normalised copy under another name: the raw text must not be used afterwards
-                later = [n for st2 in fn.node.body[fn.node.body.index(first) + 1:] for n in ast.walk(st2) if isinstance(n, ast.Name) and n.id == par]
-                ok = not later
-        rep.check(ok, rule, fn.short, norm(first)[:60] if first is not None else "?", ok="CRLF is normalised before anything scans the text", bad="the text is scanned before '\\r\\n' is normalised to '\\n': CRLF files parse differently from LF files", loc=fn.where(first) if first is not None else fn.loc)
     # parseTextgridStr interpreted with the parsers abstracted to recorders
     _flow_dispatch(rep, rule)
     # openTextgrid: utf-16 first, UnicodeError fallback to utf-8
@@ -965,7 +1256,7 @@ def rule_reader_flow(rep, rule="C-flow"):
     encs = [norm(k.value) for n in ast.walk(ot.node) if isinstance(n, ast.Call) and norm(n.func) == "io.open" for k in n.keywords if k.arg == "encoding"]
     ok = bool(tr) and encs[:2] == ["'utf-16'", "'utf-8'"] and any(h.type is not None and norm(h.type) == "UnicodeError" for h in tr[0].handlers)
     rep.check(ok, rule, ot.short, "encodings " + ", ".join(encs), ok="BOM-marked UTF-16 is tried first, UnicodeError falls back to UTF-8", bad="encoding detection is not 'utf-16, then utf-8 on UnicodeError'")
-    rep.floor(rule, 12)
+    rep.floor(rule, 11)
 
 
 def rule_duplicate_names(rep, rule="C-dupnames"):
